@@ -1130,7 +1130,7 @@ func c20Catalogue(d *vCtx) error {
 	for _, size := range []int64{1000, 1 << 20, 1 << 40, 1 << 62, 7, 0} {
 		steps := []int64{0, 1, size / 200, size / 20, size / 2, size - 1, size}
 		for _, s := range steps {
-			if s < 0 || s > size {
+			if s < 0 || s > size || c20NearTie(100, s, size) {
 				continue
 			}
 			for _, el := range els {
@@ -1309,7 +1309,10 @@ func c20MBT(d *vCtx) error {
 		}
 		// the lengths must be the witness's
 		lens := w["lens"].(map[string]any)
-		res := map[string]any{"case": ci, "obs": o, "desync": r.desync, "name": nm}
+		res := map[string]any{"case": ci, "obs": o, "desync": r.desync, "name": nm, "fz": false}
+		if n := len(r.events); n > 0 && r.events[n-1]["fz"] == true {
+			res["fz"] = true
+		}
 		if o["res"] == "rendered" {
 			nf := o["nf"].(int)
 			if (nf == 4 && o["ot"] != int(lens["t"].(float64))) || (nf >= 3 && nf <= 4 && o["os"] != int(lens["s"].(float64))) ||
